@@ -1,6 +1,9 @@
 package node
 
 import (
+	goruntime "runtime"
+	"sync/atomic"
+
 	"bytes"
 	"context"
 	"encoding/json"
@@ -33,11 +36,11 @@ import (
 )
 
 const (
-	L1ChainID   = "sim-l1"
-	L2ChainID   = "sim-l2"
-	StubStoreKey = "simstub"
+	L1ChainID          = "sim-l1"
+	L2ChainID          = "sim-l2"
+	StubStoreKey       = "simstub"
 	ConsParamsStoreKey = "simconsparams"
-	DistrModule = "distribution"
+	DistrModule        = "distribution"
 )
 
 // L1Genesis is what a fresh L1 node is initialised from.
@@ -74,9 +77,10 @@ type L1 struct {
 
 	GovAddr string
 
-	pendingStub []StubOp
-	lastTime    time.Time
-	initialHeight int64
+	pendingStub              []StubOp
+	lastTime                 time.Time
+	initialHeight            int64
+	blocksBegun, blocksEnded int64 // atomic: how many times the end of a block execution was reached
 }
 
 // ---- consensus param store (kv-backed so it survives restarts) ----
@@ -195,7 +199,7 @@ var l1MaccPerms = map[string][]string{
 func NewL1(db dbm.DB, gen *L1Genesis) *L1 {
 	enc := MakeEncoding()
 	n := &L1{DB: db, Enc: enc, Fault: &FaultState{Record: true}}
-	app := baseapp.NewBaseApp("sim-l1", log.NewNopLogger(), db, enc.TxConfig.TxDecoder(), baseapp.SetChainID(L1ChainID))
+	app := baseapp.NewBaseApp("sim-l1", log.NewNopLogger(), db, enc.TxConfig.TxDecoder(), baseapp.SetChainID(L1ChainID), baseapp.SetOptimisticExecution())
 	app.SetInterfaceRegistry(enc.Registry)
 	n.App = app
 	n.Keys = storetypes.NewKVStoreKeys(authtypes.StoreKey, banktypes.StoreKey, ophosttypes.StoreKey, StubStoreKey, ConsParamsStoreKey)
@@ -264,6 +268,10 @@ func NewL1(db dbm.DB, gen *L1Genesis) *L1 {
 			}
 		}
 		return &sdk.ResponsePreBlock{}, nil
+	})
+	app.SetEndBlocker(func(ctx sdk.Context) (sdk.EndBlock, error) {
+		atomic.AddInt64(&n.blocksEnded, 1)
+		return sdk.EndBlock{}, nil
 	})
 	app.SetAnteHandler(sdk.ChainAnteDecorators(authante.NewSetUpContextDecorator(), faultAnte{n.Fault}))
 
@@ -347,13 +355,36 @@ func (n *L1) nextHeight() int64 {
 	return n.App.LastBlockHeight() + 1
 }
 
-func (n *L1) Height() int64      { return n.App.LastBlockHeight() }
+func (n *L1) Height() int64       { return n.App.LastBlockHeight() }
 func (n *L1) LastTime() time.Time { return n.lastTime }
 
 // Finalize executes the next block (height = last committed + 1) without committing.
 func (n *L1) Finalize(t time.Time, txs [][]byte, stub []StubOp) (*abci.ResponseFinalizeBlock, error) {
 	n.pendingStub = stub
 	res, err := n.App.FinalizeBlock(&abci.RequestFinalizeBlock{Height: n.nextHeight(), Time: t, Txs: txs})
+	n.pendingStub = nil
+	if err == nil {
+		n.lastTime = t
+	}
+	return res, err
+}
+
+// FinalizeAfterAbortedOE injects "the proposal was executed optimistically, then another
+// proposal was decided": the block is executed once by the SDK's optimistic-execution
+// machinery (ProcessProposal), that execution is aborted and discarded, and the block is
+// executed again by FinalizeBlock -- all inside one process, so only state that is not
+// part of the discarded cache (keeper memory) can leak from the first execution.
+func (n *L1) FinalizeAfterAbortedOE(t time.Time, txs [][]byte, stub []StubOp) (*abci.ResponseFinalizeBlock, error) {
+	n.pendingStub = stub
+	h := n.nextHeight()
+	start := atomic.LoadInt64(&n.blocksEnded)
+	if _, err := n.App.ProcessProposal(&abci.RequestProcessProposal{Height: h, Time: t, Txs: txs, Hash: []byte("proposal-A")}); err != nil {
+		return nil, err
+	}
+	for i := 0; i < 50_000_000 && atomic.LoadInt64(&n.blocksEnded) == start; i++ {
+		goruntime.Gosched()
+	}
+	res, err := n.App.FinalizeBlock(&abci.RequestFinalizeBlock{Height: h, Time: t, Txs: txs, Hash: []byte("proposal-B")})
 	n.pendingStub = nil
 	if err == nil {
 		n.lastTime = t
